@@ -8,7 +8,7 @@ C06_PROPS = ["Served"]
 CLAUSE_MAP = {k: k for k in C06_INVS + ["TerminatedInTime", "ErrorIndication", "NoDisturbance"]}
 CLAUSE_MAP.update({"Served": "BoundedService", "Recovers": "BoundedService"})
 FAMILY = GFamily("wbic/WbIcGraph", "wbic/WbIcTrace", "harness.families.wbic:make", hint=fam.Hint(),
-                 clause_map=CLAUSE_MAP,
+                 fmt="hash", clause_map=CLAUSE_MAP,
                  describe=lambda s: "wishbone.%s(%dx%d%s%s)" % (s["kind"], s["n"], s["m"],
                                                                ", register" if s.get("register") else "",
                                                                ", timeout=%s" % s["timeout"] if s.get("timeout") else ""))
